@@ -30,6 +30,7 @@ type gscen struct {
 	Existing            bool   // target pre-exists
 	Preset              string
 	Rel                 bool // the file is named relative to the working directory, after "--"
+	Link                bool // the pre-existing target is a symbolic link to the input
 }
 
 func (s gscen) String() string {
@@ -40,6 +41,9 @@ func (s gscen) String() string {
 	rel := ""
 	if s.Rel {
 		rel = " relative-name"
+	}
+	if s.Link {
+		rel += " target-is-link-to-input"
 	}
 	return fmt.Sprintf("%s %s k=%v f=%v c=%v name=%s input=%s existing=%v%s", op, s.Format, s.Keep, s.Force, s.Stdout, s.Name, s.Input, s.Existing, rel)
 }
@@ -121,7 +125,11 @@ func (s gscen) setup(dir string, seed uint64) (cin, plain []byte, target string,
 	}
 	os.WriteFile(filepath.Join(dir, s.Name), cin, 0o644)
 	if s.Existing && target != "" {
-		os.WriteFile(filepath.Join(dir, target), []byte("PRE-EXISTING TARGET CONTENT"), 0o600)
+		if s.Link {
+			os.Symlink(s.Name, filepath.Join(dir, target))
+		} else {
+			os.WriteFile(filepath.Join(dir, target), []byte("PRE-EXISTING TARGET CONTENT"), 0o600)
+		}
 	}
 	return
 }
@@ -236,6 +244,11 @@ func c10Scenarios(c *ev.Ctx) []gscen {
 		add(gscen{Decomp: true, Format: "lzma", Name: "-k.lzma", Input: "small", Rel: true})
 		add(gscen{Format: "xz", Name: "-c", Input: "small", Rel: true})
 		add(gscen{Format: "lzma", Name: "plain name", Input: "small", Rel: true, Keep: true})
+		// the target name exists as a symbolic link that resolves to the input
+		add(gscen{Format: "xz", Name: "data.txt", Input: "small", Existing: true, Force: true, Link: true})
+		add(gscen{Format: "lzma", Name: "data.txt", Input: "small", Existing: true, Force: true, Link: true, Keep: true})
+		add(gscen{Decomp: true, Format: "xz", Name: "data.xz", Input: "small", Existing: true, Force: true, Link: true})
+		add(gscen{Decomp: true, Format: "lzma", Name: "data.lzma", Input: "small", Existing: true, Link: true})
 		add(gscen{Format: "xz", Name: "data.txz", Input: "small"})
 		add(gscen{Decomp: true, Format: "xz", Name: "data.txz", Input: "small"})
 		add(gscen{Decomp: true, Format: "lzma", Name: "data.tlz", Input: "small", Stdout: true})
@@ -249,6 +262,10 @@ func c10Scenarios(c *ev.Ctx) []gscen {
 			for fl := 0; fl < 4; fl++ {
 				add(gscen{Decomp: true, Format: f, Name: "-." + f, Input: in, Rel: true, Keep: fl&1 != 0, Force: fl&2 != 0})
 			}
+		}
+		for fl := 0; fl < 4; fl++ {
+			add(gscen{Format: f, Name: "data.txt", Input: "small", Existing: true, Link: true, Keep: fl&1 != 0, Force: fl&2 != 0})
+			add(gscen{Decomp: true, Format: f, Name: "data." + f, Input: "small", Existing: true, Link: true, Keep: fl&1 != 0, Force: fl&2 != 0})
 		}
 		add(gscen{Decomp: true, Format: f, Name: "--." + f, Input: "small", Rel: true})
 		add(gscen{Format: f, Name: "-d", Input: "small", Rel: true})
@@ -416,6 +433,9 @@ func checkC10(c *ev.Ctx) {
 		}
 		tgtComplete := tgtOK && s.complete(tgtB, cin, plain)
 		pre := []byte("PRE-EXISTING TARGET CONTENT")
+		if s.Link {
+			pre = cin // the link at the target name resolves to the input
+		}
 		// I2: the input path never holds anything but C_in
 		if inOK && !inputIntact {
 			viol("I2-input-modified", fmt.Sprintf("the input path holds %d bytes that differ from the original %d bytes", len(inB), len(cin)))
